@@ -579,6 +579,26 @@ class LiteralValue:
     properties: Iterable[Property] = attrs.field(
         converter=list_converter(Property),
     )
+    proposed: Optional[bool] = attrs.field(
+        validator=attrs.validators.optional(attrs.validators.instance_of(bool)),
+        default=None,
+    )
+    documentation: Optional[str] = attrs.field(
+        validator=attrs.validators.optional(attrs.validators.instance_of(str)),
+        default=None,
+    )
+    since: Optional[str] = attrs.field(
+        validator=attrs.validators.optional(attrs.validators.instance_of(str)),
+        default=None,
+    )
+    sinceTags: Optional[List[str]] = attrs.field(
+        validator=attrs.validators.optional(attrs.validators.instance_of(list)),
+        default=None,
+    )
+    deprecated: Optional[str] = attrs.field(
+        validator=attrs.validators.optional(attrs.validators.instance_of(str)),
+        default=None,
+    )
     id_: Optional[str] = attrs.field(
         converter=lambda x: str(uuid.uuid4()),
         validator=attrs.validators.optional(attrs.validators.instance_of(str)),
